@@ -143,5 +143,14 @@ Example rawcell_short_read_ex :
   exists h1, gdswriter_ops ex_writer h [WRaw 0%nat; WRaw 0%nat] = ROk (h1, [], [true; false]) /\ open_sources h1 = 0.
 Proof. eexists. vm_compute. split; reflexivity. Qed.
 
+(* outside name_fits: a library name of 65532 bytes makes `(uint16_t)(4 + len)` wrap to 0 - the LIBNAME record of the file
+   gdswriter_init (and, same statements, Library::write_gds) writes claims length 0 and no reader accepts the file *)
+Example gdswriter_long_name :
+  let name := repeat 65 (N.to_nat 65532) in
+  exists (h : rheap) (out : bytes),
+    (gdswriter_run name ex_writer empty_heap [] = ROk (h, out, [])) /\
+    (firstn 4%nat (skipn 34%nat out) = [0; 0; 2; 6]) /\ (spec_decode out = None) /\ (read_gds_model None out = ErrInvalid).
+Proof. cbn zeta. eexists. eexists. split; [reflexivity|]. split; [vm_compute; reflexivity|]. split; vm_compute; reflexivity. Qed.
+
 Print Assumptions rawcell_once_refuted_lemma.
 Print Assumptions rawcell_closure_refuted_lemma.
